@@ -88,6 +88,42 @@ func (h *Hist) genDelegators(cur map[string]uint32) map[string]uint32 {
 }
 
 func (h *Hist) genChains(cur []string) []string {
+	r := h.r
+	if len(cur) >= 1 && r.Chance(h.w(1, "c21", 2), 4) {
+		// edits derived from the current list: same length with a repeated chain (dropping another), permutation,
+		// superset, subset, duplicate of everything
+		extra := []string{"0003", "0021", "0040", "0001"}[r.Intn(4)]
+		switch r.Intn(6) {
+		case 0: // repeat one chain in place of another (same length, one chain dropped)
+			if len(cur) >= 2 {
+				out := append([]string{}, cur...)
+				i := r.Intn(len(out))
+				j := (i + 1 + r.Intn(len(out)-1)) % len(out)
+				out[i] = out[j]
+				return out
+			}
+			return []string{cur[0], cur[0]}
+		case 1: // permutation
+			out := append([]string{}, cur...)
+			for i, j := 0, len(out)-1; i < j; i, j = i+1, j-1 {
+				out[i], out[j] = out[j], out[i]
+			}
+			return out
+		case 2: // superset
+			return append(append([]string{}, cur...), extra)
+		case 3: // subset
+			if len(cur) >= 2 {
+				return append([]string{}, cur[:len(cur)-1]...)
+			}
+			return []string{extra}
+		case 4: // same length, one chain replaced by a new one
+			out := append([]string{}, cur...)
+			out[r.Intn(len(out))] = extra
+			return out
+		default: // every chain twice
+			return append(append([]string{}, cur...), cur...)
+		}
+	}
 	switch h.r.Intn(12) {
 	case 0, 1, 2, 8, 9, 10:
 		if len(cur) > 0 {
